@@ -126,34 +126,39 @@ Qed.
 
 Lemma array_check_okbad a b v : okbad (array_check a b v) = true.
 Proof.
-  unfold array_check. destruct (py_len v); [|reflexivity].
+  unfold array_check. destruct (is_str_bytes_dict v); [reflexivity|]. destruct (py_len v); [|reflexivity].
   repeat match goal with |- context [if ?c then _ else _] => destruct c end; reflexivity.
 Qed.
 Lemma tuple_check_okbad n v : okbad (tuple_check n v) = true.
-Proof. unfold tuple_check. destruct (py_len v); [|reflexivity]. destruct (Z.eqb _ _); reflexivity. Qed.
+Proof.
+  unfold tuple_check. destruct (is_str_bytes_dict v); [reflexivity|].
+  destruct (py_len v); [|reflexivity]. destruct (Z.eqb _ _); reflexivity.
+Qed.
 
-(* the exceptions ScaledInteger leaks: nan / inf / an overflowing quotient (finding scaled-nonfinite-leaks) *)
+(* nan / inf / an overflowing quotient are answered with RangeError since the repair.  What remains is the
+   int * float product after round(): CPython would raise OverflowError if the rounded quotient did not fit a float.
+   It always fits (it is the nearest integer of a finite binary64 number); this representability fact is not proved
+   here and stays as an explicit, computable guard. *)
 Definition scaled_call_guard (scale : f64) (v : pyval) : bool :=
   match py_add0 v with
-  | Ok f => fis_finite (fdiv f scale) && match float_of_Z (fround (fdiv f scale)) with Some _ => true | None => false end
+  | Ok f => match py_round (fdiv f scale) with
+            | Ok k => match float_of_Z k with Some _ => true | None => false end
+            | Err _ => true
+            end
   | Err _ => true
   end.
 
 Lemma scaled_call_okbad scale v : scaled_call_guard scale v = true -> okbad (scaled_call scale v) = true.
 Proof.
-  unfold scaled_call_guard, scaled_call. destruct (py_add0 v) as [f|e]; [|reflexivity]. cbn [wrap_wrong bind].
-  unfold py_round, py_int_mul_float.
-  set (q := fdiv f scale).
-  destruct (fis_finite q) eqn:Fq; [|discriminate]. cbn [andb].
-  assert (H : fis_nan q = false /\ fis_inf q = false) by (destruct q; cbn in *; auto; discriminate).
-  destruct H as [H1 H2]. rewrite H1, H2. cbn [bind].
-  destruct (float_of_Z (fround q)); intros; [reflexivity|discriminate].
+  unfold scaled_call_guard, scaled_call. destruct (py_add0 v) as [f|e]; [|reflexivity]. cbn [wrap_wrong].
+  destruct (py_round (fdiv f scale)) as [k|e]; [|reflexivity]. unfold py_int_mul_float.
+  destruct (float_of_Z k); intros; [reflexivity|discriminate].
 Qed.
 
 Lemma scaled_call_float scale v r : scaled_call scale v = Ok r -> exists f, r = PFloat f.
 Proof.
   unfold scaled_call. destruct (wrap_wrong (py_add0 v)) as [f|e]; [|discriminate].
-  destruct (py_round _) as [k|]; cbn; [|discriminate].
+  destruct (py_round _) as [k|]; [|discriminate].
   destruct (py_int_mul_float k scale); cbn; intros H; inversion H; eauto.
 Qed.
 
@@ -175,25 +180,34 @@ Proof.
   reflexivity.
 Qed.
 
-(* which top-level situations leak on the driver side: the scaled conversions above, and a struct
-   offered something that is not a mapping (finding struct-from-nonmapping) or merged into a non-dict previous value *)
+(* the only remaining top-level preconditions: the representability guard above, and for a struct that the value
+   currently held (previous) is None/empty or a dict, as it always is for a parameter of that type *)
 Definition validate_guard (d : dtype) (v prev : pyval) : bool :=
   match d with
   | TScaled scale mn mx => scaled_validate_guard scale mn mx v
-  | TStruct _ _ _ => is_dict v && (negb (py_truthy prev) || is_dict prev)
+  | TStruct _ _ _ => negb (py_truthy prev) || is_dict prev
   | _ => true
   end.
 
-Lemma struct_check_okbad names opt c a v : is_dict v = true -> okbad (struct_check names opt c a v) = true.
+Lemma struct_check_okbad names opt c a v : okbad (struct_check names opt c a v) = true.
 Proof.
-  destruct v; try discriminate. intros _. unfold struct_check. cbn.
+  destruct v; try reflexivity. unfold struct_check.
   destruct (existsb _ _); [reflexivity|].
+  match goal with |- context [match ?m with [] => _ | _ => _ end] => destruct m end; reflexivity.
+Qed.
+
+Lemma struct_check_dict names opt c a v : struct_check names opt c a v = Ok tt -> is_dict v = true.
+Proof. destruct v; cbn; try discriminate. reflexivity. Qed.
+
+Lemma check_missing_okbad names opt a kv : okbad (check_missing names opt a kv) = true.
+Proof.
+  unfold check_missing.
   match goal with |- context [match ?m with [] => _ | _ => _ end] => destruct m end; reflexivity.
 Qed.
 
 Theorem validate_total d v prev : validate_guard d v prev = true -> okbad (dt_validate d v prev) = true.
 Proof.
-  destruct d; cbn [dt_validate validate_guard]; intros G.
+  destruct d as [| | | | | | | | |members optional client]; cbn [dt_validate validate_guard]; intros G.
   - apply float_validate_okbad.
   - apply int_validate_okbad.
   - apply scaled_validate_okbad, G.
@@ -209,12 +223,16 @@ Proof.
   - apply okbad_bind; [apply tuple_check_okbad|intros _].
     destruct (py_iter v); [|reflexivity].
     destruct prev; try (destruct (py_iter _); [|reflexivity]); apply okbad_bind_ok, okbad_wrap_elem.
-  - apply andb_prop in G. destruct G as [G1 G2].
-    apply okbad_bind; [apply struct_check_okbad, G1|intros _].
-    rewrite G1. cbn [negb].
-    destruct (py_truthy prev); cbn in G2.
-    + destruct prev; try discriminate. apply okbad_bind_ok, okbad_wrap_elem.
-    + apply okbad_bind_ok, okbad_wrap_elem.
+  - destruct (struct_check (map fst members) optional client true v) as [[]|e] eqn:Ec;
+      [|pose proof (struct_check_okbad (map fst members) optional client true v) as Hc; rewrite Ec in Hc; exact Hc].
+    cbn [bind]. rewrite (struct_check_dict _ _ _ _ _ Ec). cbn [negb].
+    assert (Hfin : forall r : res (list (str * pyval)),
+      okbad (wrap_elem r >>= (fun kv => check_missing (map fst members) optional true kv >>= (fun _ => Ok (PDict kv)))) = true).
+    { intros r. apply okbad_bind; [apply okbad_wrap_elem|intros kv].
+      apply okbad_bind; [apply check_missing_okbad|reflexivity]. }
+    destruct (py_truthy prev); cbn in G.
+    + destruct prev; try discriminate. apply Hfin.
+    + apply Hfin.
 Qed.
 
 (* ------------------------------------------------------------------ soundness: a returned value lies in the value set *)
@@ -224,8 +242,7 @@ Definition str_ok (minc maxc : Z) (utf8 : bool) (s : str) : bool :=
   negb (existsb (fun c => N.eqb c 0) s).
 
 (* the declared value set (specification side).  For a struct: every member present is a declared member with a
-   value of its type; presence of the mandatory members is NOT part of it here (finding struct-none-for-mandatory,
-   see in_setb_full in Refuted.v) *)
+   value of its type, and every member that is not optional is present *)
 Fixpoint in_setb (d : dtype) (r : pyval) {struct d} : bool :=
   match d, r with
   | TFloat mn mx _ _, PFloat f => fle mn f && fle f mx
@@ -248,13 +265,14 @@ Fixpoint in_setb (d : dtype) (r : pyval) {struct d} : bool :=
          | d1 :: ds', x :: r => in_setb d1 x && go ds' r
          | _, _ => false
          end) es l
-  | TStruct ms _ _, PDict kv =>
+  | TStruct ms opt _, PDict kv =>
       forallb (fun p : str * pyval =>
                  (fix find (ms : list (str * dtype)) : bool :=
                     match ms with
                     | [] => false
                     | (n, d1) :: ms' => if str_eqb (fst p) n then in_setb d1 (snd p) else find ms'
-                    end) ms) kv
+                    end) ms) kv &&
+      forallb (fun n => mem_str n opt || mem_str n (map fst kv)) (map fst ms)
   | _, _ => false
   end.
 
@@ -296,7 +314,7 @@ Proof. unfold float_of_Z. destruct (fis_finite (of_Z z)) eqn:E; intros H; invers
 Lemma scaled_call_notnan s v f : fis_finite s = true -> scaled_call s v = Ok (PFloat f) -> notnan f.
 Proof.
   intros Fs. unfold scaled_call. destruct (wrap_wrong (py_add0 v)) as [x|e]; [|discriminate].
-  destruct (py_round _) as [k|]; cbn; [|discriminate]. unfold py_int_mul_float.
+  destruct (py_round _) as [k|]; [|discriminate]. unfold py_int_mul_float.
   destruct (float_of_Z k) as [zf|] eqn:E; cbn; [|discriminate].
   intros H. inversion H. subst. apply fmul_finite_notnan; [eapply float_of_Z_finite; eauto|exact Fs].
 Qed.
@@ -532,7 +550,7 @@ Lemma array_check_ok a b v items :
   py_iter v = Some items -> array_check a b v = Ok tt ->
   (a <=? Z.of_nat (length items))%Z = true /\ (Z.of_nat (length items) <=? b)%Z = true.
 Proof.
-  intros Hi. unfold array_check. rewrite (py_len_iter v items Hi).
+  intros Hi. unfold array_check. destruct (is_str_bytes_dict v); [discriminate|]. rewrite (py_len_iter v items Hi).
   destruct (Z.of_nat (length items) <? a)%Z eqn:E1; [discriminate|].
   destruct (b <? Z.of_nat (length items))%Z eqn:E2; [discriminate|].
   intros _. apply Z.ltb_ge in E1. apply Z.ltb_ge in E2. split; apply Z.leb_le; assumption.
@@ -541,7 +559,7 @@ Qed.
 Lemma tuple_check_ok n v items :
   py_iter v = Some items -> tuple_check n v = Ok tt -> length items = n.
 Proof.
-  intros Hi. unfold tuple_check. rewrite (py_len_iter v items Hi).
+  intros Hi. unfold tuple_check. destruct (is_str_bytes_dict v); [discriminate|]. rewrite (py_len_iter v items Hi).
   destruct (Z.eqb _ _) eqn:E; [|discriminate]. intros _. apply Z.eqb_eq in E. lia.
 Qed.
 
@@ -551,8 +569,23 @@ Proof.
   rewrite IH. reflexivity.
 Qed.
 
-Lemma in_setb_struct ms o c kv : in_setb (TStruct ms o c) (PDict kv) = forallb (entry_ok in_setb ms) kv.
+Lemma in_setb_struct ms o c kv :
+  in_setb (TStruct ms o c) (PDict kv) =
+  forallb (entry_ok in_setb ms) kv && forallb (fun n => mem_str n o || mem_str n (map fst kv)) (map fst ms).
 Proof. reflexivity. Qed.
+
+Lemma check_missing_present names opt kv :
+  check_missing names opt true kv = Ok tt -> forallb (fun n => mem_str n opt || mem_str n (map fst kv)) names = true.
+Proof.
+  unfold check_missing.
+  destruct (filter (fun n => negb (mem_str n opt)) (filter (fun n => negb (mem_str n (map fst kv))) names)) eqn:E;
+    [|discriminate].
+  intros _. apply forallb_forall. intros n Hin.
+  destruct (mem_str n opt) eqn:Eo; [reflexivity|]. destruct (mem_str n (map fst kv)) eqn:Ek; [reflexivity|].
+  exfalso. assert (Hn : In n (filter (fun n => negb (mem_str n opt)) (filter (fun n => negb (mem_str n (map fst kv))) names))).
+  { apply filter_In. split; [apply filter_In; split; [exact Hin|rewrite Ek; reflexivity]|rewrite Eo; reflexivity]. }
+  rewrite E in Hn. destruct Hn.
+Qed.
 
 (* soundness: whatever is offered and whatever valid value is currently held, a value that validate returns lies in the
    declared value set.  Unbounded depth and width. *)
@@ -577,13 +610,16 @@ Proof.
       apply andb_prop in Hp. destruct Hp as [Hp Hall]. apply andb_prop in Hp. destruct Hp as [Pa Pb].
       cbn [py_iter] in H. apply bind_ok in H. destruct H as (ys & Hys & H). inversion H; subst.
       apply wrap_elem_ok in Hys.
-      destruct (map2_res_sound (dt_validate d) (fun p => in_setb d p = true) (in_setb d)) with (items := items) (ps := l) (ys := ys)
-        as [L F]; [intros x p r0 Hpp Hr; eapply IHd; [exact Hwf|right; exact Hpp|exact Hr]
-                  |apply Forall_forall; intros p Hin; eapply forallb_forall in Hall; eauto|exact Hys|].
-      cbn. rewrite F, L. apply Z.leb_le in La, Lb, Pa, Pb.
-      assert ((a <=? Z.of_nat (Nat.min (length items) (length l)))%Z = true) as -> by (apply Z.leb_le; lia).
-      assert ((Z.of_nat (Nat.min (length items) (length l)) <=? b)%Z = true) as -> by (apply Z.leb_le; lia).
-      reflexivity.
+      destruct (map2_res_sound (dt_validate d) (prev_ok d) (in_setb d)) with (items := items)
+        (ps := l ++ repeat PNone (length items - length l)) (ys := ys)
+        as [L F]; [intros x p r0 Hpp Hr; eapply IHd; [exact Hwf|exact Hpp|exact Hr]
+                  | |exact Hys|].
+      { apply Forall_app. split.
+        - apply Forall_forall. intros p Hin. right. eapply forallb_forall in Hall; eauto.
+        - apply Forall_forall. intros p Hin. apply repeat_spec in Hin. left. exact Hin. }
+      cbn. rewrite F, L. rewrite app_length, repeat_length.
+      assert (Nat.min (length items) (length l + (length items - length l)) = length items) as -> by lia.
+      rewrite La, Lb. reflexivity.
     + apply bind_ok in H. destruct H as (ys & Hys & H). inversion H; subst. apply wrap_elem_ok in Hys.
       destruct (map_res_sound (fun x => dt_validate d x PNone) (in_setb d) items ys) as [L F];
         [intros x r0 _ Hr; eapply IHd; [exact Hwf|left; reflexivity|exact Hr]|exact Hys|].
@@ -617,13 +653,15 @@ Proof.
                                    = Some start -> forallb (entry_ok in_setb ms) start = true).
     { intros start. destruct (py_truthy prev).
       - destruct Hprev as [->|Hp]; [discriminate|]. destruct prev; try discriminate.
-        intros E; inversion E; subst. exact Hp.
+        intros E; inversion E; subst. rewrite in_setb_struct in Hp. apply andb_prop in Hp. apply Hp.
       - intros E; inversion E; reflexivity. }
     destruct (if py_truthy prev then _ else _) as [start|]; [|discriminate].
     destruct (negb (is_dict v)); [discriminate|].
-    apply bind_ok in Hres. destruct Hres as (kv & Hkv & Hres). inversion Hres; subst. apply wrap_elem_ok in Hkv.
-    rewrite in_setb_struct.
-    exact (struct_fold_sound (fun d1 x => dt_validate d1 x PNone) in_setb true ms HF (dict_items v) start kv (Hstart start eq_refl) Hkv).
+    apply bind_ok in Hres. destruct Hres as (kv & Hkv & Hres). apply wrap_elem_ok in Hkv.
+    apply bind_ok in Hres. destruct Hres as ([] & Hmiss & Hres). inversion Hres; subst.
+    rewrite in_setb_struct. apply andb_true_intro. split.
+    + exact (struct_fold_sound (fun d1 x => dt_validate d1 x PNone) in_setb true ms HF (dict_items v) start kv (Hstart start eq_refl) Hkv).
+    + apply check_missing_present. exact Hmiss.
 Qed.
 
 Corollary wire_sound E d : wf d -> forall j prev r, prev_ok d prev -> wire E d j prev = Ok r -> in_setb d r = true.
@@ -632,31 +670,7 @@ Proof.
   eapply validate_sound; eauto.
 Qed.
 
-(* ------------------------------------------------------------------ totality of import_value, where it does not leak *)
-(* import_value of a container is not guarded by the code: a non-iterable offered for an array/tuple and a
-   non-mapping offered for a struct leak TypeError/AttributeError (findings import-noniterable-into-sequence,
-   struct-from-nonmapping).  import_guard is exactly the absence of these situations, at every depth. *)
-Fixpoint import_guard (d : dtype) (j : pyval) {struct d} : bool :=
-  match d with
-  | TArray e _ _ => match py_iter j with Some items => forallb (import_guard e) items | None => false end
-  | TTuple es =>
-      match py_iter j with
-      | Some items =>
-          (fix go (ds : list dtype) (l : list pyval) : bool :=
-             match ds, l with d1 :: ds', x :: r => import_guard d1 x && go ds' r | _, _ => true end) es items
-      | None => false
-      end
-  | TStruct ms _ _ =>
-      is_dict j &&
-      forallb (fun p : str * pyval =>
-                 (fix find (ms : list (str * dtype)) : bool :=
-                    match ms with
-                    | [] => true
-                    | (n, d1) :: ms' => if str_eqb (fst p) n then import_guard d1 (snd p) else find ms'
-                    end) ms) (dict_items j)
-  | _ => true
-  end.
-
+(* ------------------------------------------------------------------ totality of import_value (unconditional) *)
 Lemma map_res_okbad (f : pyval -> res pyval) items :
   (forall x, In x items -> okbad (f x) = true) -> okbad (map_res f items) = true.
 Proof.
@@ -670,23 +684,15 @@ Proof. unfold scaled_import. apply okbad_wrap_wrong. Qed.
 Lemma blob_import_okbad E v : okbad (blob_import E v) = true.
 Proof. destruct v; cbn; try reflexivity; destruct (lookup_sb _ _ _); reflexivity. Qed.
 
-Definition entry_guard (G : dtype -> pyval -> bool) (ms : list (str * dtype)) (p : str * pyval) : bool :=
-  (fix find (ms : list (str * dtype)) : bool :=
-     match ms with
-     | [] => true
-     | (n, d1) :: ms' => if str_eqb (fst p) n then G d1 (snd p) else find ms'
-     end) ms.
-
-Lemma member_res_okbad (f : dtype -> pyval -> res pyval) (G : dtype -> pyval -> bool) k x ms :
+Lemma member_res_okbad (f : dtype -> pyval -> res pyval) k x ms :
   mem_str k (map fst ms) = true ->
-  Forall (fun m => forall y, G (snd m) y = true -> okbad (f (snd m) y) = true) ms ->
-  entry_guard G ms (k, x) = true -> okbad (member_res f k x ms) = true.
+  Forall (fun m => forall y, okbad (f (snd m) y) = true) ms ->
+  okbad (member_res f k x ms) = true.
 Proof.
-  induction ms as [|[n d1] ms IH]; intros Hm HF Hg; [discriminate|].
+  induction ms as [|[n d1] ms IH]; intros Hm HF; [discriminate|].
   change (member_res f k x ((n, d1) :: ms)) with (if str_eqb k n then f d1 x else member_res f k x ms).
-  change (entry_guard G ((n, d1) :: ms) (k, x)) with (if str_eqb k n then G d1 x else entry_guard G ms (k, x)) in Hg.
   inversion HF as [|? ? H1 HF']; subst. cbn [snd] in H1. cbn in Hm.
-  destruct (str_eqb k n); [apply H1; exact Hg|apply IH; assumption].
+  destruct (str_eqb k n); [apply H1|apply IH; assumption].
 Qed.
 
 Lemma struct_fold_okbad (f : dtype -> pyval -> res pyval) skip ms :
@@ -703,23 +709,32 @@ Qed.
 Lemma struct_check_keys names opt c a kv :
   struct_check names opt c a (PDict kv) = Ok tt -> forall k x, In (k, x) kv -> mem_str k names = true.
 Proof.
-  unfold struct_check. cbn. destruct (existsb _ kv) eqn:E; [discriminate|]. intros _ k x Hin.
+  unfold struct_check. destruct (existsb _ kv) eqn:E; [discriminate|]. intros _ k x Hin.
   destruct (mem_str k names) eqn:M; [reflexivity|]. exfalso.
   assert (existsb (fun p : str * pyval => negb (mem_str (fst p) names)) kv = true).
   { apply existsb_exists. exists (k, x). split; [exact Hin|]. cbn. rewrite M. reflexivity. }
   congruence.
 Qed.
 
-Lemma dt_call_leaf_okbad d v :
-  match d with TScaled _ _ _ | TArray _ _ _ | TTuple _ | TStruct _ _ _ => True | _ => okbad (dt_call d v) = true end.
+Lemma check_iter_some v : is_str_bytes_dict v = false -> py_len v <> None -> exists items, py_iter v = Some items.
+Proof. destruct v; cbn; intros; try discriminate; try congruence; eauto. Qed.
+
+Lemma array_check_iter a b v : array_check a b v = Ok tt -> exists items, py_iter v = Some items.
 Proof.
-  destruct d; cbn [dt_call]; auto using float_call_okbad, int_call_okbad, bool_call_okbad, enum_call_okbad,
-    string_call_okbad, blob_call_okbad.
+  unfold array_check. destruct (is_str_bytes_dict v) eqn:E; [discriminate|].
+  destruct (py_len v) eqn:L; [|discriminate]. intros _. apply check_iter_some; congruence.
+Qed.
+Lemma tuple_check_iter n v : tuple_check n v = Ok tt -> exists items, py_iter v = Some items.
+Proof.
+  unfold tuple_check. destruct (is_str_bytes_dict v) eqn:E; [discriminate|].
+  destruct (py_len v) eqn:L; [|discriminate]. intros _. apply check_iter_some; congruence.
 Qed.
 
-Theorem import_total E : forall d j, import_guard d j = true -> okbad (dt_import E d j) = true.
+(* import_value never leaks: for every datatype tree and every offered value the outcome is a value,
+   RangeError or WrongTypeError *)
+Theorem import_total E : forall d j, okbad (dt_import E d j) = true.
 Proof.
-  induction d using dtype_nested_ind; intros j G; cbn [dt_import].
+  induction d using dtype_nested_ind; intros j; cbn [dt_import].
   - apply float_call_okbad.
   - apply int_call_okbad.
   - apply scaled_import_okbad.
@@ -727,30 +742,210 @@ Proof.
   - apply enum_call_okbad.
   - apply string_call_okbad.
   - apply blob_import_okbad.
-  - cbn [import_guard] in G. destruct (py_iter j) as [items|]; [|discriminate].
-    apply okbad_bind_ok. apply map_res_okbad. intros x Hin. apply IHd.
-    eapply forallb_forall in G; eauto.
-  - cbn [import_guard] in G. destruct (py_iter j) as [items|]; [|discriminate].
-    apply okbad_bind_ok. revert items G. induction es as [|d1 es IH]; intros items G; [reflexivity|].
-    destruct items as [|x items]; [reflexivity|]. cbn in G. apply andb_prop in G. destruct G as [G1 G2].
-    inversion H; subst. cbn [mapd_res]. apply okbad_bind; [apply H2; exact G1|intros y].
+  - destruct (array_check a b j) as [[]|e] eqn:Ec;
+      [|pose proof (array_check_okbad a b j) as Hc; rewrite Ec in Hc; exact Hc].
+    destruct (array_check_iter _ _ _ Ec) as [items ->]. cbn [bind].
+    apply okbad_bind_ok. apply map_res_okbad. intros x _. apply IHd.
+  - destruct (tuple_check (length es) j) as [[]|e] eqn:Ec;
+      [|pose proof (tuple_check_okbad (length es) j) as Hc; rewrite Ec in Hc; exact Hc].
+    destruct (tuple_check_iter _ _ Ec) as [items ->]. cbn [bind].
+    apply okbad_bind_ok. clear Ec. revert items. induction es as [|d1 es IH]; intros items; [reflexivity|].
+    destruct items as [|x items]; [reflexivity|].
+    inversion H; subst. cbn [mapd_res]. apply okbad_bind; [apply H2|intros y].
     apply okbad_bind_ok. apply IH; assumption.
-  - cbn [import_guard] in G. apply andb_prop in G. destruct G as [Gd G].
-    destruct j; try discriminate. cbn [dict_items is_dict negb] in *.
-    destruct (struct_check (map fst ms) o c true (PDict kv)) as [[]|e] eqn:Ec.
-    + cbn [bind]. apply okbad_bind_ok. apply struct_fold_okbad. intros k x Hin.
-      apply (member_res_okbad (dt_import E) import_guard); [eapply struct_check_keys; eauto| |].
-      * rewrite Forall_forall in H. apply Forall_forall. intros m Hm y Gy. apply (H m Hm). exact Gy.
-      * eapply forallb_forall in G; [|exact Hin]. exact G.
-    + pose proof (struct_check_okbad (map fst ms) o c true (PDict kv) eq_refl) as Hc. rewrite Ec in Hc. exact Hc.
+  - destruct (struct_check (map fst ms) o c true j) as [[]|e] eqn:Ec;
+      [|pose proof (struct_check_okbad (map fst ms) o c true j) as Hc; rewrite Ec in Hc; exact Hc].
+    cbn [bind]. rewrite (struct_check_dict _ _ _ _ _ Ec). cbn [negb].
+    destruct j; try discriminate. cbn [dict_items].
+    apply okbad_bind_ok. apply struct_fold_okbad. intros k x Hin.
+    apply member_res_okbad; [eapply struct_check_keys; eauto|].
+    rewrite Forall_forall in H. apply Forall_forall. intros m Hm y. apply (H m Hm).
 Qed.
 
+(* kept for files written against the earlier (guarded) statement: the guard is now trivially true *)
+Definition import_guard (d : dtype) (j : pyval) : bool := true.
+
 Definition wire_guard (E : pyenv) (d : dtype) (j prev : pyval) : bool :=
-  import_guard d j && match dt_import E d j with Ok v => validate_guard d v prev | Err _ => true end.
+  match dt_import E d j with Ok v => validate_guard d v prev | Err _ => true end.
 
 Theorem wire_total E d j prev : wire_guard E d j prev = true -> okbad (wire E d j prev) = true.
 Proof.
-  unfold wire_guard, wire. intros G. apply andb_prop in G. destruct G as [G1 G2].
-  pose proof (import_total E d j G1) as H. destruct (dt_import E d j) as [v|e]; [|exact H].
-  cbn [bind]. apply validate_total. exact G2.
+  unfold wire_guard, wire. intros G.
+  pose proof (import_total E d j) as H. destruct (dt_import E d j) as [v|e]; [|exact H].
+  cbn [bind]. apply validate_total. exact G.
+Qed.
+
+(* ------------------------------------------------------------------ canonical: kinds and lengths *)
+Definition is_whole (f : f64) : bool :=
+  fis_finite f && match cmp_Z_f (ftrunc f) f with Some Eq => true | _ => false end.
+Definition is_number (j : pyval) : bool := match j with PBool _ | PInt _ | PFloat _ => true | _ => false end.
+
+(* the JSON kinds (plus their Python-side equivalents) that may denote a value of the type *)
+Fixpoint kind_ok (d : dtype) (j : pyval) {struct d} : bool :=
+  match d with
+  | TFloat _ _ _ _ | TInt _ _ => is_number j
+  | TScaled _ _ _ => match j with PBool _ | PInt _ => true | PFloat f => is_whole f | _ => false end
+  | TBool => match j with PBool _ | PInt _ | PFloat _ | PEnum _ _ => true | _ => false end
+  | TEnum _ => match j with PStr _ | PBool _ | PInt _ | PEnum _ _ => true | PFloat f => is_whole f | _ => false end
+  | TString _ _ _ => match j with PStr _ => true | _ => false end
+  | TBlob _ _ => match j with PStr _ | PBytes _ => true | _ => false end
+  | TArray e _ _ => match j with PList l | PTuple l => forallb (kind_ok e) l | _ => false end
+  | TTuple es =>
+      match j with
+      | PList l | PTuple l =>
+          (fix go (ds : list dtype) (l : list pyval) : bool :=
+             match ds, l with
+             | [], [] => true
+             | d1 :: ds', x :: r => kind_ok d1 x && go ds' r
+             | _, _ => false
+             end) es l
+      | _ => false
+      end
+  | TStruct ms _ _ =>
+      match j with
+      | PDict kv =>
+          forallb (fun p : str * pyval =>
+                     (fix find (ms : list (str * dtype)) : bool :=
+                        match ms with
+                        | [] => false
+                        | (n, d1) :: ms' => if str_eqb (fst p) n then kind_ok d1 (snd p) else find ms'
+                        end) ms) kv
+      | _ => false
+      end
+  end.
+
+Lemma kind_ok_tuple es l : (match PList l with PList l | PTuple l => true | _ => false end) = true ->
+  kind_ok (TTuple es) (PList l) = all2 kind_ok es l /\ kind_ok (TTuple es) (PTuple l) = all2 kind_ok es l.
+Proof.
+  intros _. cbn [kind_ok]. split; revert l; induction es as [|d1 es IH]; destruct l as [|x l]; cbn; try reflexivity;
+    rewrite IH; reflexivity.
+Qed.
+
+Lemma py_add0_number v f : py_add0 v = Ok f -> is_number v = true.
+Proof. destruct v; cbn; try discriminate; reflexivity. Qed.
+
+Lemma float_call_kind v r : float_call v = Ok r -> is_number v = true.
+Proof.
+  unfold float_call. destruct (py_add0 v) as [f|e] eqn:E; cbn; [|discriminate]. intros _. eapply py_add0_number; eauto.
+Qed.
+Lemma int_call_kind v r : int_call v = Ok r -> is_number v = true.
+Proof.
+  unfold int_call. destruct (py_add0 v) as [f|e] eqn:E; cbn; [|discriminate]. intros _. eapply py_add0_number; eauto.
+Qed.
+
+Lemma map_res_each (f : pyval -> res pyval) items ys :
+  map_res f items = Ok ys -> length ys = length items /\ forall x, In x items -> exists y, f x = Ok y.
+Proof.
+  revert ys. induction items as [|x items IH]; intros ys; cbn.
+  - intros H; inversion H; split; [reflexivity|intros ? []].
+  - intros H. apply bind_ok in H. destruct H as (y & Hy & H). apply bind_ok in H. destruct H as (ys' & Hys & H).
+    inversion H; subst. destruct (IH ys' Hys) as [L A]. split; [cbn; congruence|].
+    intros x0 [->|Hin]; eauto.
+Qed.
+
+Lemma map2_res_length (f : pyval -> pyval -> res pyval) : forall items ps ys,
+  map2_res f items ps = Ok ys -> length ys = Nat.min (length items) (length ps).
+Proof.
+  induction items as [|x items IH]; intros ps ys; cbn; [intros H; inversion H; reflexivity|].
+  destruct ps as [|p ps]; [intros H; inversion H; reflexivity|].
+  intros H. apply bind_ok in H. destruct H as (y & Hy & H). apply bind_ok in H. destruct H as (ys' & Hys & H).
+  inversion H; subst. cbn. rewrite (IH ps ys' Hys). reflexivity.
+Qed.
+
+Lemma mapd_res_each (f : dtype -> pyval -> res pyval) (Q : dtype -> pyval -> bool) :
+  forall ds items ys, length items = length ds ->
+  Forall (fun d1 => forall x y, f d1 x = Ok y -> Q d1 x = true) ds ->
+  mapd_res f ds items = Ok ys -> all2 Q ds items = true.
+Proof.
+  induction ds as [|d1 ds IH]; intros items ys L HF; cbn.
+  - destruct items; [reflexivity|discriminate].
+  - destruct items as [|x items]; [discriminate|]. inversion HF as [|? ? H1 HF']; subst.
+    intros H. apply bind_ok in H. destruct H as (y & Hy & H). apply bind_ok in H. destruct H as (ys' & Hys & H).
+    cbn. rewrite (H1 x y Hy). cbn. eapply IH; eauto.
+Qed.
+
+Lemma member_res_kind (f : dtype -> pyval -> res pyval) (Q : dtype -> pyval -> bool) k x :
+  forall ms y, Forall (fun m => forall x y, f (snd m) x = Ok y -> Q (snd m) x = true) ms ->
+  member_res f k x ms = Ok y -> entry_ok Q ms (k, x) = true.
+Proof.
+  induction ms as [|[n d1] ms IH]; intros y HF; [discriminate|].
+  inversion HF as [|? ? H1 HF']; subst. cbn [snd] in H1.
+  change (member_res f k x ((n, d1) :: ms)) with (if str_eqb k n then f d1 x else member_res f k x ms).
+  change (entry_ok Q ((n, d1) :: ms) (k, x)) with (if str_eqb k n then Q d1 x else entry_ok Q ms (k, x)).
+  destruct (str_eqb k n); [apply H1|apply IH; exact HF'].
+Qed.
+
+Lemma struct_fold_kind (f : dtype -> pyval -> res pyval) (Q : dtype -> pyval -> bool) ms :
+  Forall (fun m => forall x y, f (snd m) x = Ok y -> Q (snd m) x = true) ms ->
+  forall kv acc out, struct_fold f false ms kv acc = Ok out -> forallb (entry_ok Q ms) kv = true.
+Proof.
+  intros HF. induction kv as [|[k x] kv IH]; intros acc out; cbn [struct_fold forallb]; [reflexivity|].
+  intros H.
+  assert (Hb : member_res f k x ms >>= (fun y => struct_fold f false ms kv (dict_set k y acc)) = Ok out)
+    by (destruct x; exact H).
+  apply bind_ok in Hb. destruct Hb as (y & Hy & Hb).
+  rewrite (member_res_kind f Q k x ms y HF Hy). cbn. eapply IH; eauto.
+Qed.
+
+Lemma check_is_seq v : is_str_bytes_dict v = false -> forall items, py_iter v = Some items ->
+  v = PList items \/ v = PTuple items.
+Proof. destruct v; cbn; intros; try discriminate; inversion H0; auto. Qed.
+
+Lemma scaled_import_kind E s v r : scaled_import E s v = Ok r -> kind_ok (TScaled s fzero fzero) v = true.
+Proof.
+  unfold scaled_import. destruct v; cbn; try discriminate; try reflexivity.
+  unfold is_whole. destruct (fis_finite f); cbn; [|discriminate].
+  destruct (cmp_Z_f (ftrunc f) f) as [[]|]; cbn; try discriminate. reflexivity.
+Qed.
+
+Theorem import_kinds E : forall d j v, dt_import E d j = Ok v -> kind_ok d j = true.
+Proof.
+  induction d using dtype_nested_ind; intros j v; cbn [dt_import].
+  - apply float_call_kind.
+  - apply int_call_kind.
+  - intros H. apply (scaled_import_kind E s j v H).
+  - destruct j as [| | z | f | | | | | | n z |]; cbn; try discriminate; reflexivity.
+  - destruct j as [| | z | f | | | | | | n z |]; cbn; try discriminate; try reflexivity.
+    unfold is_whole. destruct (fis_finite f); cbn; [|discriminate].
+    destruct (cmp_Z_f (ftrunc f) f) as [[]|]; cbn; try discriminate. reflexivity.
+  - destruct j; cbn; try discriminate; reflexivity.
+  - destruct j; cbn; try discriminate; reflexivity.
+  - intros Hres. apply bind_ok in Hres. destruct Hres as ([] & Hc & Hres).
+    destruct (array_check_iter _ _ _ Hc) as [items Hi]. rewrite Hi in Hres.
+    apply bind_ok in Hres. destruct Hres as (ys & Hys & _).
+    destruct (map_res_each _ _ _ Hys) as [_ Hall].
+    assert (Hk : forallb (kind_ok d) items = true).
+    { apply forallb_forall. intros x Hin. destruct (Hall x Hin) as [y Hy]. eapply IHd; eauto. }
+    unfold array_check in Hc. destruct (is_str_bytes_dict j) eqn:Es; [discriminate|].
+    destruct (check_is_seq j Es items Hi) as [->| ->]; exact Hk.
+  - intros Hres. apply bind_ok in Hres. destruct Hres as ([] & Hc & Hres).
+    destruct (tuple_check_iter _ _ Hc) as [items Hi]. rewrite Hi in Hres.
+    apply bind_ok in Hres. destruct Hres as (ys & Hys & _).
+    pose proof (tuple_check_ok _ _ _ Hi Hc) as L.
+    assert (Hk : all2 kind_ok es items = true).
+    { eapply (mapd_res_each (dt_import E) kind_ok); [exact L| |exact Hys].
+      rewrite Forall_forall in H. apply Forall_forall. intros d1 Hd x y Hxy. eapply (H d1 Hd); eauto. }
+    unfold tuple_check in Hc. destruct (is_str_bytes_dict j) eqn:Es; [discriminate|].
+    destruct (kind_ok_tuple es items eq_refl) as [K1 K2].
+    destruct (check_is_seq j Es items Hi) as [->| ->]; [rewrite K1|rewrite K2]; exact Hk.
+  - intros Hres. apply bind_ok in Hres. destruct Hres as ([] & Hc & Hres).
+    pose proof (struct_check_dict _ _ _ _ _ Hc) as Hd. rewrite Hd in Hres. cbn [negb] in Hres.
+    destruct j; try discriminate. cbn [dict_items] in Hres.
+    apply bind_ok in Hres. destruct Hres as (out & Hout & _).
+    change (kind_ok (TStruct ms o c) (PDict kv)) with (forallb (entry_ok kind_ok ms) kv).
+    eapply (struct_fold_kind (dt_import E) kind_ok); [|exact Hout].
+    rewrite Forall_forall in H. apply Forall_forall. intros m Hm x y Hxy. eapply (H m Hm); eauto.
+Qed.
+
+Theorem array_length_preserved : forall e a b v prev items ys,
+  py_iter v = Some items -> dt_validate (TArray e a b) v prev = Ok (PTuple ys) -> length ys = length items.
+Proof.
+  intros e a b v prev items ys Hi. cbn [dt_validate]. intros H.
+  apply bind_ok in H. destruct H as ([] & _ & H). rewrite Hi in H.
+  destruct (py_truthy prev).
+  - destruct (py_iter prev) as [ps|]; [|discriminate].
+    apply bind_ok in H. destruct H as (ys' & Hys & H). inversion H; subst. apply wrap_elem_ok in Hys.
+    rewrite (map2_res_length _ _ _ _ Hys). rewrite app_length, repeat_length. lia.
+  - apply bind_ok in H. destruct H as (ys' & Hys & H). inversion H; subst. apply wrap_elem_ok in Hys.
+    apply (map_res_each _ _ _ Hys).
 Qed.
